@@ -95,6 +95,11 @@ def j_registration(ctx):
         obs.append(('reg:user', f'a user {eff_nick} exists afterwards exactly when registration completed', Iff(post.user_live(eff_nick), reg_ok)))
     obs.append(('reg:welcome', 'the welcome burst is sent exactly when registration completed', Iff(n001 == 1, reg_ok)))
     obs.append(('reg:auth', 'the connection is authenticated exactly when registration completed', Iff(rec['authenticated'], reg_ok)))
+    # the negotiation flag itself: LS and REQ open a negotiation (whatever the answer), END closes it
+    if verb == 'CAP' and ps and ps[0].upper() in ('LS', 'REQ', 'END'):
+        obs.append(('reg:negotiation', f'CAP {ps[0].upper()} leaves the capability negotiation {"open" if caps else "closed"}', Iff(rec['caps'], caps)))
+    else:
+        obs.append(('reg:negotiation', f'{verb} does not open or close a capability negotiation', Iff(rec['caps'], bool(c0.get('caps_negotation', False)))))
     bad_pw = And(attempt, mm is None, not good)
     obs.append(('reg:464', 'a wrong or missing required password is answered with 464', Iff(n464 == 1, bad_pw)))
     obs.append(('reg:close', 'a wrong or missing required password closes the connection', Implies(bad_pw, ctx.quit != 0)))
